@@ -35,9 +35,9 @@ static const char *hash_name[H_N + 1] = { "sha1", "sha256", "sha384", "sha512", 
 
 /* variant classes (shared name space, each family uses a subset) */
 enum { V_NAMED = 0, V_BYTE, V_SIG, V_TRUNC, V_SALT, V_GRID, V_DER, V_MSG, V_BIT,
-       V_RSASIGN, V_PSSSIGN, V_RSAENC, V_RSADEC, V_ECSIGN, V_EDSIGN, V_ECDH, V_X25519, V_RSALONG, V_N };
+       V_RSASIGN, V_PSSSIGN, V_RSAENC, V_RSADEC, V_ECSIGN, V_EDSIGN, V_ECDH, V_X25519, V_RSALONG, V_ALGMIX, V_N };
 static const char *var_name[V_N] = { "named", "byte", "sig", "trunc", "salt", "grid", "der", "msg", "bit",
-                                     "rsasign", "psssign", "rsaenc", "rsadec", "ecsign", "edsign", "ecdh", "x25519", "rsalong" };
+                                     "rsasign", "psssign", "rsaenc", "rsadec", "ecsign", "edsign", "ecdh", "x25519", "rsalong", "algmix" };
 
 typedef struct { int f, k, h, v; long i; } case_t;
 
